@@ -149,6 +149,13 @@ def parseOp (f : Nat) (ks : List Schema) : List String → Option Op
       | some (k, []) => some (.delRow i k)
       | _ => none
     | _, _ => none
+  | "RR" :: i :: nk :: r => match i.toNat?, nk.toNat? with
+    | some i, some nk => match pKeys nk r with
+      | some (k, r') => match pBody f r' with
+        | some (b, []) => some (.replaceRow i k b)
+        | _ => none
+      | none => none
+    | _, _ => none
   | "R" :: i :: r => match i.toNat? with
     | some i => match pData f r with
       | some (d, []) => some (.replace i d)
